@@ -192,12 +192,18 @@ func (b *exampleBuilder) buildExampleForArrayNode(node *internalSchema.ArrayNode
 	buf := exampleBufferPool.Get()
 	defer exampleBufferPool.Put(buf)
 
-	// An array which has to have items is not a place to stop.
-	mayStop := node.Constraint(constraint.MinItemsConstraintType) == nil
+	// An array which has to have items is not a place to stop before it has
+	// them: the items beyond the "minItems" rule are the ones which may be left out.
+	var minItems uint
+	if c, ok := node.Constraint(constraint.MinItemsConstraintType).(*constraint.MinItems); ok {
+		minItems = c.Value()
+	}
 
 	buf.WriteRune('[')
 	emitted := false
-	for _, childNode := range node.Children() {
+	for i, childNode := range node.Children() {
+		// The array ends at the first item left out, so it has i items here.
+		mayStop := uint(i) >= minItems
 		if mayStop && !b.canShow(childNode) {
 			break
 		}
